@@ -130,7 +130,19 @@ Emit == /\ step = Len(Names) + MaxEdits
         /\ PrintT(<<"SCN", ToJson([versions |-> vs])>>)
         /\ step' = step + 1 /\ UNCHANGED vs
 
-Next == Setup \/ Edit \/ Emit
+\* chains: n tables, each referring to the key of the one before (the deepest table is n - 1 steps from the first);
+\* emitted once per run of the Deep configuration, next to the histories
+Pad(i) == IF i < 10 THEN "0" \o ToString(i) ELSE ToString(i)
+ChainTable(i) == [name |-> "T" \o Pad(i),
+                  cols |-> <<PrimCol("id", "int", 0, TRUE, FALSE)>>
+                           \o (IF i > 1 THEN <<RefCol("r1", "T" \o Pad(i - 1), "id", FALSE)>> ELSE <<>>)
+                           \o <<PrimCol("n", "string", 20, FALSE, FALSE)>>]
+Chain(n) == [i \in 1..n |-> ChainTable(i)]
+EmitChains == /\ Deep /\ step = 0 /\ vs = << <<>> >>
+              /\ \A n \in {2, 9, 10, 11, 12, 14} : PrintT(<<"SCN", ToJson([versions |-> <<Chain(n)>>])>>)
+              /\ step' = Len(Names) + MaxEdits + 1 /\ UNCHANGED vs
+
+Next == Setup \/ Edit \/ Emit \/ EmitChains
 Spec == Init /\ [][Next]_gvars
 
 -----------------------------------------------------------------------------
